@@ -164,7 +164,7 @@ def gen_pre(rng, layers, exact):
     lin = sorted({{'conv': 'Conv1d', 'linear': 'Linear', 'avgpool': 'AvgPool1d', 'maxpool': 'MaxPool1d',
                    'flatten': 'Flatten'}[ly['t']] for ly in layers if ly['t'] != 'act'})
     for _ in range(rng.randint(1, 2)):
-        kind = rng.choice(['override', 'override', 'add', 'plain', 'raise'])
+        kind = rng.choice(['override', 'override', 'add', 'plain', 'raise', 'vary', 'vary'])
         if kind == 'override' and not acts:
             kind = 'add'
         if kind == 'override':
@@ -173,6 +173,9 @@ def gen_pre(rng, layers, exact):
         elif kind == 'add':
             pre.append({'kind': 'ops', 'type': rng.choice(lin), 'rule': rng.choice(['zero', 'double']),
                         'same_model': rng.random() < 0.5, 'seed': rng.randrange(10 ** 6)})
+        elif kind == 'vary':
+            pre.append({'kind': 'vary', 'seed': rng.randrange(10 ** 6),
+                        'what': rng.choice(['target', 'batch_size', 'hypothetical', 'raw', 'threshold', 'n_refs'])})
         elif kind == 'plain':
             pre.append({'kind': 'plain', 'seed': rng.randrange(10 ** 6), 'batch_size': rng.choice([1, 2, 32]),
                         'hypothetical': rng.random() < 0.5, 'raw': rng.random() < 0.5})
@@ -225,6 +228,7 @@ def gen_user_hooks(rng, layers, backward_on_nonlinear):
 
 
 BACKWARD_HOOK_TAG = 'user_backward_hook'
+SHARED_TAG = 'shared_module'
 
 
 def gen_input(rng, exact, allow_maxpool, affine_only=False, pid=None):
@@ -240,10 +244,10 @@ def gen_input(rng, exact, allow_maxpool, affine_only=False, pid=None):
     B = 1 if many else rng.choice([1, 1, 2])
     ns = rng.randint(21, 23) if many else rng.randint(1, 3)
     refs = rng.choice(['onehot', 'mutate', 'mutate']) if many else \
-        rng.choice(['onehot', 'mutate', 'mutate', 'mutate', 'dyadic', 'shuffle'])
+        rng.choice(['onehot', 'mutate', 'mutate', 'mutate', 'dyadic', 'shuffle', 'func'])
     inp = {'mode': 'exact' if exact else 'cosim', 'A': A, 'L': L, 'layers': layers, 'nout': nout,
            'target': rng.randrange(nout), 'B': B, 'ns': ns,
-           'batch_size': rng.choice([1, 2, 3, B * ns, B * ns + 1, 32]),
+           'batch_size': rng.choice([1, 1, 2, 2, 3, 3, B * ns, B * ns, B * ns - 1, B * ns + 1, 32, 32, 0]),
            'refs': refs, 'seed': rng.randrange(10 ** 9)}
     # a reference TENSOR comes with an n_shuffles argument that is documented as ignored: smaller
     # than, equal to or larger than the number of references given (None = the default, 20)
@@ -253,8 +257,57 @@ def gen_input(rng, exact, allow_maxpool, affine_only=False, pid=None):
         inp['extra_ops'] = used_extra
     if rng.random() < 0.22 or used_extra and rng.random() < 0.5:
         inp['pre'] = gen_pre(rng, layers, exact)
+    known = {e.get('tag') for e in C.load_known_findings(pid or PID)}
+    # ---- how the model object is put together / what state it is in
+    st = {}
+    acts_idx = [i for i, ly in enumerate(layers) if ly['t'] == 'act']
+    if rng.random() < 0.15 and len(layers) >= 3:
+        st['nest'] = rng.randint(1, len(layers) - 1)
+    if rng.random() < 0.08:
+        st['alias'] = rng.randrange(len(layers))
+    if rng.random() < 0.10:
+        st['train'] = True
+    if rng.random() < 0.08:
+        st['frozen'] = True
+    if rng.random() < 0.12 and not many:
+        st['args'] = rng.choice(['add_default', 'addmul', 'addmul'])
+    if SHARED_TAG in known and len(acts_idx) >= 2 and not used_extra and rng.random() < 0.15:
+        i, j = sorted(rng.sample(acts_idx, 2))      # open finding shared_module: generated once listed
+        layers[j] = dict(layers[i])
+        st['share'] = [i, j]
+    if st:
+        inp['struct'] = st
+    # ---- forms of the scalar parameters and output modes
+    o = {}
+    if rng.random() < 0.3:
+        o['target'] = rng.choice(['np', 'neg'])
     if rng.random() < 0.15:
-        listed = any(e.get('tag') == BACKWARD_HOOK_TAG for e in C.load_known_findings(pid or PID))
+        o['bs'] = 'np'
+    if rng.random() < 0.1:
+        o['device_obj'] = True
+    if rng.random() < 0.08:
+        o['verbose'] = True
+    if rng.random() < 0.08:
+        o['print'] = True
+    if rng.random() < 0.15:
+        o['wt'] = rng.choice([1e-7, 1e-5])
+    if refs in ('shuffle', 'func'):
+        if rng.random() < 0.3:
+            o['rs'] = 'np'
+        elif refs == 'func' and rng.random() < 0.4:
+            o['rs'] = 'none'
+        if rng.random() < 0.2:
+            o['ns'] = 'np'
+    elif rng.random() < 0.15:
+        o['ret_refs'] = True
+    if rng.random() < 0.1:
+        o['raw_hyp'] = True
+    if st.get('args') and rng.random() < 0.3:
+        o['args_list'] = True
+    if o:
+        inp['opts'] = o
+    if rng.random() < 0.15:
+        listed = True     # finding user_backward_hook was repaired in /repo (24c0b16): always generated
         hooks = gen_user_hooks(rng, layers, listed)
         if hooks:
             inp['user_hooks'] = hooks
@@ -315,9 +368,22 @@ def build(inp):
         else:
             raise KeyError(t)
         mods.append(m)
-    model = nn.Sequential(*mods).double()
+    st = inp.get('struct', {})
+    if st.get('share'):                  # one activation INSTANCE applied at two places of the forward pass
+        i, j = st['share']
+        mods[j] = mods[i]
+    if st.get('nest'):                   # nested containers
+        k = st['nest']
+        model = nn.Sequential(nn.Sequential(*mods[:k]), nn.Sequential(*mods[k:]))
+    else:
+        model = nn.Sequential(*mods)
+    if st.get('alias') is not None:      # a module reachable through two parents (applied once)
+        model = Alias(model, mods[st['alias']])
+    if st.get('args'):                   # forward(X, a, b=None): extra per-example inputs
+        model = WithArgs(model)
+    model = model.double()
     with torch.no_grad():
-        for m in model:
+        for m in mods:
             if isinstance(m, (nn.Conv1d, nn.Linear)):
                 for prm in ([m.weight] + ([m.bias] if m.bias is not None else [])):
                     vals = [float(r.randint(-2, 2)) if exact else r.uniform(-1.0, 1.0)
@@ -333,7 +399,7 @@ def build(inp):
         return x
     X = torch.stack([onehot() for _ in range(B)])
     kind = inp['refs']
-    if kind == 'shuffle':
+    if kind in ('shuffle', 'func'):
         refs = None
     else:
         rows = []
@@ -354,9 +420,52 @@ def build(inp):
                 row.append(ref)
             rows.append(torch.stack(row))
         refs = torch.stack(rows)
+    if kind == 'func':                   # a non-default reference FUNCTION of the caller
+        refs = None
     if inp.get('directed') and refs is not None:
-        apply_directed(model, X, refs, inp['directed'])
-    return model, X, refs
+        apply_directed(mods, X, refs, inp['directed'])
+    args = None
+    if st.get('args'):
+        nout = inp['nout']
+        a = torch.tensor([[float(r.randint(-3, 3)) if exact else r.uniform(-2.0, 2.0) for _ in range(nout)]
+                          for _b in range(B)], dtype=torch.float64)
+        b2 = torch.tensor([[float(r.choice([-2, -1, 1, 2, 3])) if exact else r.uniform(0.5, 2.0) * r.choice([-1, 1])
+                            for _ in range(nout)] for _b in range(B)], dtype=torch.float64)
+        args = (a,) if st['args'] == 'add_default' else (a, b2)
+    if st.get('frozen'):
+        for prm in model.parameters():
+            prm.requires_grad_(False)
+    if st.get('train'):
+        model.train()                    # deep_lift_shap must put it (and every child) into eval mode itself
+    return {'model': model, 'mods': mods, 'X': X, 'refs': refs, 'args': args}
+
+
+class Alias(torch.nn.Module):
+    def __init__(self, seq, other):
+        super().__init__()
+        self.seq = seq
+        self.alias = other
+
+    def forward(self, X):
+        return self.seq(X)
+
+
+class WithArgs(torch.nn.Module):
+    """forward has a parameter with a default value, so a dropped argument would go unnoticed by torch."""
+    def __init__(self, body):
+        super().__init__()
+        self.body = body
+
+    def forward(self, X, a, b=None):
+        y = self.body(X) + a
+        return y if b is None else y * b
+
+
+def ref_function(X, n=1, random_state=None):
+    """A caller-supplied reference function with dinucleotide_shuffle's signature: reference i is X
+    rolled along the sequence by (state + i + 1) positions with the channels rotated by one."""
+    s = 0 if random_state is None else int(random_state) % 5
+    return torch.stack([torch.roll(torch.roll(X, s + i + 1, dims=-1), 1, dims=-2) for i in range(n)], dim=1)
 
 
 VALLEY = {'GELU': -0.7517915246, 'SiLU': -1.2784645428, 'Mish': -1.1924519727}   # arg-min of the activation
@@ -381,14 +490,14 @@ def valley_pair(name, depth):
     return hi, a
 
 
-def apply_directed(model, X, refs, dr):
+def apply_directed(mods, X, refs, dr):
     """Directed unit: hidden unit dr['unit'] of the first Linear gets, for the pair (example 0,
     reference 0), pre-activations with a tiny OUTPUT difference and a large INPUT difference:
     kink (2^-21, -1) for ReLU/ReLU6, kink6 (6 - 2^-21, 7) for ReLU6, shrink (0.5 + 2^-21, -0.25) for
     Softshrink(0.5), valley: equal heights on both sides of the minimum of GELU/SiLU/Mish.  In scope of
     the properties: their excluded band is about |delta_in| only.  All adjustments are dyadic for the
     first three kinds, so exact mode stays exact."""
-    lin = next(m for m in model if isinstance(m, torch.nn.Linear))
+    lin = next(m for m in mods if isinstance(m, torch.nn.Linear))
     x, r = X[0].reshape(-1), refs[0, 0].reshape(-1)
     cand = [i for i in range(x.numel()) if r[i] == 1.0 and x[i] == 0.0]
     if not cand or lin.bias is None:
@@ -428,23 +537,53 @@ def _dls():
     return D
 
 
-def _run_dls(model, X, refs, inp, **kw):
+def _call_opts(inp):
+    """Forms of the scalar parameters: numpy integers, negative target index, torch.device object,
+    progress bar / delta printing, tighter warning threshold."""
+    import numpy
+    o = inp.get('opts', {})
+    kw = {}
+    t = inp['target']
+    kw['target'] = {'np': numpy.int64(t), 'neg': t - inp['nout']}.get(o.get('target'), t)
+    bs = inp['batch_size']
+    kw['batch_size'] = numpy.int64(bs) if o.get('bs') == 'np' else bs
+    kw['device'] = torch.device('cpu') if o.get('device_obj') else 'cpu'
+    if o.get('verbose'):
+        kw['verbose'] = True
+    if o.get('print'):
+        kw['print_convergence_deltas'] = True
+    if o.get('wt') is not None:
+        kw['warning_threshold'] = o['wt']
+    return kw
+
+
+def _run_dls(b, inp, **kw):
+    import contextlib
+    import io
+    import numpy
     D = _dls()
     from tangermeme.ersatz import dinucleotide_shuffle
+    o = inp.get('opts', {})
+    kw.update(_call_opts(inp))
     if inp.get('extra_ops'):
         # the documented way to support a further element-wise activation: the library's own rule
         kw['additional_nonlinear_ops'] = {getattr(torch.nn, n): D._nonlinear for n in inp['extra_ops']}
-    with warnings.catch_warnings(record=True) as w:
+    if b['args'] is not None:
+        kw['args'] = list(b['args']) if o.get('args_list') else b['args']
+    refs = b['refs']
+    with warnings.catch_warnings(record=True) as w, contextlib.redirect_stdout(io.StringIO()), \
+            contextlib.redirect_stderr(io.StringIO()):
         warnings.simplefilter('always')
         if refs is None:
-            out = D.deep_lift_shap(model, X, target=inp['target'], batch_size=inp['batch_size'],
-                                   references=dinucleotide_shuffle, n_shuffles=inp['ns'],
-                                   random_state=inp['seed'] % 1000, device='cpu', **kw)
+            fn = ref_function if inp['refs'] == 'func' else dinucleotide_shuffle
+            ns = numpy.int64(inp['ns']) if o.get('ns') == 'np' else inp['ns']
+            rs = None if o.get('rs') == 'none' else inp['seed'] % 1000
+            rs = numpy.int64(rs) if o.get('rs') == 'np' else rs
+            out = D.deep_lift_shap(b['model'], b['X'], references=fn, n_shuffles=ns, random_state=rs, **kw)
         else:
             if inp.get('ns_arg') is not None:
                 kw['n_shuffles'] = inp['ns_arg']       # documented as ignored for a reference tensor
-            out = D.deep_lift_shap(model, X, target=inp['target'], batch_size=inp['batch_size'],
-                                   references=refs, device='cpu', **kw)
+            out = D.deep_lift_shap(b['model'], b['X'], references=refs, **kw)
     warned = any(issubclass(x.category, RuntimeWarning) for x in w)
     return out, warned
 
@@ -457,11 +596,14 @@ def _custom_rule(name):
     return lambda module, grad_input, grad_output: (2.0 * grad_input[0],)
 
 
-def _run_pre(step, model, inp):
+def _run_pre(step, b, inp):
     """One earlier call in the same process; its result is not judged, exceptions are swallowed."""
+    import contextlib
+    import io
     import random
     D = _dls()
     nn = torch.nn
+    model = b['model']
     r = random.Random(step['seed'])
     A, L = inp['A'], inp['L']
 
@@ -472,29 +614,59 @@ def _run_pre(step, model, inp):
         return x
     X1 = torch.stack([onehot() for _ in range(2)])
     R1 = torch.stack([torch.stack([onehot() for _ in range(2)]) for _ in range(2)])
+    kw = {}
+    if b['args'] is not None:
+        kw['args'] = tuple(a[:1].expand(2, -1).clone() for a in b['args'])
     try:
-        with warnings.catch_warnings():
+        with warnings.catch_warnings(), contextlib.redirect_stdout(io.StringIO()), \
+                contextlib.redirect_stderr(io.StringIO()):
             warnings.simplefilter('ignore')
             if step['kind'] == 'ops':
                 cls = getattr(nn, step['type'])
                 if step['same_model']:
                     m = model
-                elif step['type'] == 'Conv1d':
-                    m = nn.Sequential(nn.Conv1d(A, 2, 1), nn.Flatten(), nn.Linear(2 * L, 1)).double()
-                elif step['type'] in ('AvgPool1d', 'MaxPool1d'):
-                    m = nn.Sequential(cls(1), nn.Flatten(), nn.Linear(A * L, 1)).double()
-                elif step['type'] in ('Linear', 'Flatten'):
-                    m = nn.Sequential(nn.Flatten(), nn.Linear(A * L, 1)).double()
                 else:
-                    m = nn.Sequential(nn.Flatten(), nn.Linear(A * L, 3), make_act(step['type']),
-                                      nn.Linear(3, 1)).double()
+                    kw = {}
+                    if step['type'] == 'Conv1d':
+                        m = nn.Sequential(nn.Conv1d(A, 2, 1), nn.Flatten(), nn.Linear(2 * L, 1)).double()
+                    elif step['type'] in ('AvgPool1d', 'MaxPool1d'):
+                        m = nn.Sequential(cls(1), nn.Flatten(), nn.Linear(A * L, 1)).double()
+                    elif step['type'] in ('Linear', 'Flatten'):
+                        m = nn.Sequential(nn.Flatten(), nn.Linear(A * L, 1)).double()
+                    else:
+                        m = nn.Sequential(nn.Flatten(), nn.Linear(A * L, 3), make_act(step['type']),
+                                          nn.Linear(3, 1)).double()
                 D.deep_lift_shap(m, X1, references=R1, device='cpu',
-                                 additional_nonlinear_ops={cls: _custom_rule(step['rule'])})
+                                 additional_nonlinear_ops={cls: _custom_rule(step['rule'])}, **kw)
             elif step['kind'] == 'plain':
                 D.deep_lift_shap(model, X1, references=R1, device='cpu', batch_size=step['batch_size'],
-                                 hypothetical=step['hypothetical'], raw_outputs=step['raw'])
+                                 hypothetical=step['hypothetical'], raw_outputs=step['raw'], **kw)
+            elif step['kind'] == 'vary':
+                # the very objects of the checked call, ONE parameter changed
+                kv = dict(target=inp['target'], batch_size=inp['batch_size'])
+                what = step['what']
+                if what == 'target':
+                    kv['target'] = (inp['target'] + 1) % inp['nout']
+                elif what == 'batch_size':
+                    kv['batch_size'] = inp['batch_size'] % 3 + 1
+                elif what == 'hypothetical':
+                    kv['hypothetical'] = True
+                elif what == 'raw':
+                    kv['raw_outputs'] = True
+                elif what == 'threshold':
+                    kv['warning_threshold'] = 0.0
+                if b['args'] is not None:
+                    kv['args'] = b['args']
+                if b['refs'] is not None:
+                    refs = b['refs'][:, :1] if what == 'n_refs' else b['refs']
+                    D.deep_lift_shap(model, b['X'], references=refs, device='cpu', **kv)
+                else:
+                    fn = ref_function if inp['refs'] == 'func' else None
+                    extra = {'references': fn} if fn else {}
+                    D.deep_lift_shap(model, b['X'], n_shuffles=inp['ns'] + (1 if what == 'n_refs' else 0),
+                                     random_state=inp['seed'] % 1000, device='cpu', **extra, **kv)
             else:   # a call that raises after the hooks were registered (reference length mismatch)
-                D.deep_lift_shap(model, X1, references=R1[:, :, :, :max(1, L - 1)], device='cpu')
+                D.deep_lift_shap(model, X1, references=R1[:, :, :, :max(1, L - 1)], device='cpu', **kw)
     except Exception:       # noqa: BLE001
         pass
 
@@ -504,13 +676,15 @@ def _analyse(inp):
     importlib.reload(_dls())             # every case starts from a freshly loaded module: the calls
     #                                      of one case (pre steps + checked call) share its state,
     #                                      different cases do not, so every failing case replays alone
-    model, X, refs = build(inp)
-    twin = copy.deepcopy(model)          # never touched by tangermeme
+    b = build(inp)
+    model, mods, X, refs = b['model'], b['mods'], b['X'], b['refs']
+    twin, tmods = copy.deepcopy((model, mods))      # never touched by tangermeme; keeps shared instances
+    twin.eval()
     B, ns, A, L = inp['B'], inp['ns'], inp['A'], inp['L']
-    res = {'model': twin, 'X': X}
+    res = {'model': twin, 'mods': tmods, 'X': X, 'args': b['args']}
     user = []                            # (module, dict name, handle, call counter)
     for hk in inp.get('user_hooks', []):
-        mod, cnt = model[hk['idx']], [0]
+        mod, cnt = mods[hk['idx']], [0]
         if hk['kind'] == 'forward':
             h = mod.register_forward_hook(lambda m, i, o, c=cnt: c.__setitem__(0, c[0] + 1))
             user.append((mod, '_forward_hooks', h, cnt))
@@ -521,29 +695,48 @@ def _analyse(inp):
             h = mod.register_full_backward_hook(lambda m, gi, go, c=cnt: c.__setitem__(0, c[0] + 1))
             user.append((mod, '_backward_hooks', h, cnt))
     for step in inp.get('pre', []):
-        _run_pre(step, model, inp)
+        _run_pre(step, b, inp)
     # ---- implementation
     try:
         X0 = X.clone()
-        if refs is None:
-            (raw, used), w1 = _run_dls(model, X, None, inp, raw_outputs=True, return_references=True)
+        R0 = None if refs is None else refs.clone()
+        A0 = None if b['args'] is None else [a.clone() for a in b['args']]
+        o = inp.get('opts', {})
+        if refs is None or o.get('ret_refs'):
+            (raw, used), w1 = _run_dls(b, inp, raw_outputs=True, return_references=True)
             used = used.to(torch.float64)
         else:
-            raw, w1 = _run_dls(model, X, refs, inp, raw_outputs=True)
+            raw, w1 = _run_dls(b, inp, raw_outputs=True)
             used = refs
-        hyp, w2 = _run_dls(model, X, refs, inp, hypothetical=True)
-        att, w3 = _run_dls(model, X, refs, inp)
+        hyp, w2 = _run_dls(b, inp, hypothetical=True)
+        att, w3 = _run_dls(b, inp)
+        same = True
+        if o.get('raw_hyp'):             # raw_outputs=True wins over hypothetical=True
+            rh, w4 = _run_dls(b, inp, raw_outputs=True, hypothetical=True)
+            same = tuple(rh.shape) == tuple(raw.shape) and bool(torch.equal(rh, raw))
+            w1 = w1 or w4
         # the number of multiplier vectors per example is passed on as returned: the spec demands
         # one per given reference
         ok = (raw.dim() == 4 and tuple(raw.shape[:1] + raw.shape[2:]) == (B, A, L)
               and tuple(hyp.shape) == (B, A, L)
-              and tuple(att.shape) == (B, A, L) and tuple(used.shape) == (B, ns, A, L)
-              and bool(torch.equal(X, X0)))
+              and tuple(att.shape) == (B, A, L) and tuple(used.shape) == (B, ns, A, L))
+        # nothing that belongs to the caller may have been modified
+        sd, sd0 = model.state_dict(), twin.state_dict()
+        untouched = (bool(torch.equal(X, X0)) and (refs is None or bool(torch.equal(refs, R0)))
+                     and (refs is None or bool(torch.equal(used, refs)))
+                     and (A0 is None or all(torch.equal(a, a0) for a, a0 in zip(b['args'], A0)))
+                     and all(torch.equal(sd[k], sd0[k]) for k in sd0))
+        if inp['refs'] == 'func':        # the references must come from the caller's function
+            untouched = untouched and all(
+                any(torch.equal(used[bi, j], torch.roll(torch.roll(X[bi], k_, dims=-1), 1, dims=-2))
+                    for k_ in range(L)) for bi in range(B) for j in range(used.shape[1]))
         finite = bool(torch.isfinite(raw).all() and torch.isfinite(hyp).all() and torch.isfinite(att).all())
         kept = all(h.id in getattr(mod, dname) and cnt[0] > 0 for mod, dname, h, cnt in user)
-        why = 'shape or input mutated' if not ok else ('non-finite value returned' if not finite else (
-            None if kept else 'a hook of the caller was removed or never ran'))
-        ok = ok and finite and kept     # NaN / inf cannot satisfy any equation of the spec: reported as Err
+        why = ('wrong shape' if not ok else 'caller data modified / references are not the given ones (tensor) or not produced by the given function' if not untouched
+               else 'raw_outputs+hypothetical differs from raw_outputs' if not same
+               else 'non-finite value returned' if not finite
+               else None if kept else 'a hook of the caller was removed or never ran')
+        ok = ok and untouched and same and finite and kept     # anything else is reported as Err
         out = {'ok': bool(ok), 'warn': bool(w1 or w2 or w3),
                'mult': raw.double().reshape(B, raw.shape[1], A * L).tolist() if ok else None,
                'hyp': hyp.double().reshape(B, A * L).tolist() if ok else None,
@@ -558,29 +751,38 @@ def _analyse(inp):
     if used is None:
         res['cosim'] = None
         return res
-    # ---- independent co-simulation on the twin: plain forward hooks
-    recs = {}
+    # ---- independent co-simulation on the twin: plain forward hooks (a module instance that is
+    # applied twice records twice; the k-th record belongs to the k-th layer that uses it)
+    calls = {}
 
-    def hook(idx):
-        def f(mod, i, o):
-            recs[idx] = (i[0].detach().clone(), o.detach().clone())
-        return f
-    handles = []
-    for idx, m in enumerate(twin):
-        if inp['layers'][idx]['t'] in ('act', 'maxpool'):
-            handles.append(m.register_forward_hook(hook(idx)))
+    def hook(mod, i, o):
+        calls.setdefault(id(mod), []).append((i[0].detach().clone(), o.detach().clone()))
+    handles, seen = [], set()
+    for idx, m in enumerate(tmods):
+        if inp['layers'][idx]['t'] in ('act', 'maxpool') and id(m) not in seen:
+            seen.add(id(m))
+            handles.append(m.register_forward_hook(hook))
     per_ex = []
     with torch.no_grad():
-        for b in range(B):
-            batch = torch.cat([X[b:b + 1], used[b]])
-            y = twin(batch)
-            per_ex.append(({k: (v[0].clone(), v[1].clone()) for k, v in recs.items()}, y.detach().clone()))
+        for bi in range(B):
+            batch = torch.cat([X[bi:bi + 1], used[bi]])
+            calls.clear()
+            if b['args'] is not None:
+                y = twin(batch, *[a[bi:bi + 1].expand(batch.shape[0], -1) for a in b['args']])
+            else:
+                y = twin(batch)
+            rec, k = {}, {}
+            for idx, m in enumerate(tmods):
+                if inp['layers'][idx]['t'] in ('act', 'maxpool'):
+                    rec[idx] = calls[id(m)][k.get(id(m), 0)]
+                    k[id(m)] = k.get(id(m), 0) + 1
+            per_ex.append((rec, y.detach().clone()))
     for h in handles:
         h.remove()
     # ordinary derivative of each activation at the example's input
-    for b in range(B):
-        rec, _y = per_ex[b]
-        for idx, m in enumerate(twin):
+    for bi in range(B):
+        rec, _y = per_ex[bi]
+        for idx, m in enumerate(tmods):
             if inp['layers'][idx]['t'] == 'act':
                 a = rec[idx][0][0:1].clone().requires_grad_(True)
                 with torch.enable_grad():
@@ -591,7 +793,7 @@ def _analyse(inp):
     shapes = []
     with torch.no_grad():
         h = X[0:1]
-        for m in twin:
+        for m in tmods:
             shapes.append(tuple(h.shape[1:]))
             h = m(h)
     res['shapes'] = shapes
@@ -674,7 +876,7 @@ def coq_case(inp, out):
     if a['refs'] is None or a.get('cosim') is None:
         # the call raised before references existed: nothing to compare against
         return '(C false [], Err, false)'
-    twin, X, refs, shapes = a['model'], a['X'], a['refs'], a['shapes']
+    twin, X, refs, shapes = a['mods'], a['X'], a['refs'], a['shapes']
     lets, exs = [], []
     # shared affine layers / windows
     names = {}
@@ -715,6 +917,15 @@ def coq_case(inp, out):
                     else:
                         i, _o = rec[idx]
                         net.append('(NPoolRec p%d %s %s)' % (idx, vec(i[0]), vec(i[1 + j])))
+            if a.get('args') is not None:
+                # forward(X, a, b): y = body(X) + a, then * b - per example, affine on the outputs
+                n_o = inp['nout']
+                eye = [[1.0 if r_ == c_ else 0.0 for c_ in range(n_o)] for r_ in range(n_o)]
+                net.append('(NAffine %s %s)' % (mat(eye), vec(a['args'][0][b])))
+                if len(a['args']) > 1:
+                    sc = a['args'][1][b].tolist()
+                    net.append('(NAffine %s %s)' % (mat([[sc[r_] if r_ == c_ else 0.0 for c_ in range(n_o)]
+                                                         for r_ in range(n_o)]), vec([0.0] * n_o)))
             pairs.append('(P %s %s %s %s)' % (vec(refs[b, j]), C.lst(net),
                                               fl(y[0, inp['target']]), fl(y[1 + j, inp['target']])))
         exs.append('(E %s %s %s %s %s %s)' % (C.nat(A), C.nat(L), C.nat(inp['nout']), C.nat(inp['target']),
@@ -762,6 +973,12 @@ def arch_key(inp):
         k.append('extra')
     if inp.get('user_hooks'):
         k.append('hooks')
+    for key in sorted(inp.get('struct', {})):
+        k.append(key)
+    if inp.get('opts'):
+        k.append('opts')
+    if inp['refs'] == 'func':
+        k.append('reffn')
     if inp.get('directed'):
         k.append('directed-' + inp['directed']['kind'])
     return '+'.join(k)
@@ -778,6 +995,8 @@ def hist_key(inp, out):
 
 
 def hook_tags(inp):
+    if inp.get('struct', {}).get('share'):
+        return {SHARED_TAG}
     if any(hk['kind'] == 'backward' and inp['layers'][hk['idx']]['t'] in ('act', 'maxpool')
            for hk in inp.get('user_hooks', [])):
         return {BACKWARD_HOOK_TAG}
@@ -801,6 +1020,15 @@ def generate(tier, rng):
 
 
 def shrink(inp):
+    for field in ('struct', 'opts'):
+        for key in sorted(inp.get(field, {})):
+            if key == 'share':
+                continue
+            c = dict(inp)
+            c[field] = {k: v for k, v in inp[field].items() if k != key}
+            if not c[field]:
+                del c[field]
+            yield c
     if inp.get('user_hooks'):
         for i in range(len(inp['user_hooks'])):
             rest = inp['user_hooks'][:i] + inp['user_hooks'][i + 1:]
@@ -829,10 +1057,10 @@ def shrink(inp):
         yield dict(inp, ns=inp['ns'] - 1)
     if inp['batch_size'] != 32:
         yield dict(inp, batch_size=32)
-    if inp['refs'] == 'shuffle':
+    if inp['refs'] in ('shuffle', 'func'):
         yield dict(inp, refs='mutate')
     # drop a shape-preserving layer (activation, or a max-pool / conv that keeps the shape)
-    if not inp.get('user_hooks') and not inp.get('directed'):
+    if not inp.get('user_hooks') and not inp.get('directed') and not inp.get('struct'):
         for i, ly in enumerate(inp['layers']):
             if ly['t'] == 'act':
                 yield dict(inp, layers=inp['layers'][:i] + inp['layers'][i + 1:])
